@@ -1,7 +1,7 @@
-(* C11 -- statements only; see DESIGN.md section 6 C11.  Theorems are added as the proofs land;
-   the witnesses below are evaluated in the kernel on the whole-parser model. *)
+(* C11 -- code content is opaque and reproduced verbatim.  Statements only; proofs in proofs/CodeProofs.v;
+   see DESIGN.md section 6 C11. *)
 From Coq Require Import String.
-From MdIt Require Import Prims Tables Tree Render Core Dump Dispatch.
+From MdIt Require Import Prims Tables Escape Indent Tree Render Block Inline Core Dump Dispatch RenderProofs RangeProofs CodeProofs.
 Local Open Scope string_scope.
 Local Open Scope list_scope.
 Local Open Scope N_scope.
@@ -20,3 +20,76 @@ Example C11_witness_fence :
 </code></pre>
 ".
 Proof. vm_compute. reflexivity. Qed.
+
+(* FULL STATEMENT (not proved end to end; decided on every run by the payload oracle in the three code
+   contexts at top level, in block quotes and in list items, and by the correspondence): a text T placed
+   in a long enough fence, indented by four spaces, or in a long enough backtick span reappears in the
+   output character for character (escaped; line endings normalised; span rules), tabs preserved.
+
+   PROVED PARTS (model):
+   1. cutting indentation (all mixtures of tabs and spaces): a line that starts with the blanks pre, cut
+      by exactly the columns of pre, loses exactly pre and no space is invented -- so with pre = [] (fence
+      content), pre = four spaces (indented code) or the fence's own indentation the rest of the line,
+      tabs included, is kept byte for byte; get_lines over such lines yields the lines joined by LF;
+   2. provenance: the content of a fence / code block / code span node is that cut of the lines (resp. the
+      source slice between opener and closer, LF -> space, one pair of padding spaces removed) and nothing
+      else: no unescaping, no reference decoding, no inline parsing touches it;
+   3. rendering: the content reaches the output through escape_html only (lossless, see C03). *)
+
+Theorem C11_cut_keeps_line_verbatim : forall pre T, forallb is_ws pre = true ->
+  let l := mk_line (pre ++ T) in
+  (l_first l <=? l_end l) = true /\
+  calc_right_whitespace (takeN (l_first l) (l_text l)) (l_indent l - Z.of_N (cols_from 0 pre)) = (0, len pre).
+Proof. exact cut_line_verbatim. Qed.
+
+Theorem C11_lines_joined_verbatim : forall st pre keep, forallb is_ws pre = true -> forall texts n b acc mp,
+  (length texts <= n)%nat ->
+  (forall i T, nth_error texts i = Some T -> nth_error (b_lines st) (b + i) = Some (mk_line (pre ++ T))) ->
+  exists mp', get_lines_loop st n b (b + length texts) (cols_from 0 pre) keep acc mp = inr (acc ++ out_lines keep texts, mp').
+Proof. exact get_lines_verbatim. Qed.
+
+Theorem C11_fence_content_is_the_lines : forall cfg st st', rule_fence cfg st = inr (st', true) ->
+  exists m n params r0 next content mp rng,
+    fence_open st = inr (Some (m, n, params)) /\ line_rec st (b_line st) = inr r0 /\
+    get_lines st (S (b_line st)) next (Z.to_N (l_indent r0)) true = inr (content, mp) /\
+    last_block_child st' = Some (mk (KFence params m n content (bc_fence_prefix cfg)) rng []).
+Proof. exact fence_content. Qed.
+
+Theorem C11_code_block_content_is_the_lines : forall st st', rule_code st = inr (st', true) ->
+  exists last content mp rng,
+    get_lines st (b_line st) last (4 + b_blk st) false = inr (content, mp) /\
+    last_block_child st' = Some (mk (KCodeBlock (content ++ [10])) rng []).
+Proof. exact code_block_content. Qed.
+
+Theorem C11_code_span_content_is_the_slice : forall st m st' n, rule_code_pair st m false = inr (st', Some n) ->
+  exists rest ms me mv k rng1 rng2,
+    irest st = inr rest /\ k = count_run m rest /\
+    code_scan (S (length rest)) st m k (i_pos st + k) (snd (get_bt st m)) = inr (Some (ms, me), mv) /\
+    n = me - i_pos st /\
+    last_child st' = Some (mk (KCodeInline m k) rng1 [mk (KText (span_text (sub (i_src st) (i_pos st + k) ms))) rng2 []]).
+Proof. exact code_span_content. Qed.
+
+Theorem C11_code_block_rendering : forall xhtml c m e cs,
+  render xhtml (Node (KCodeBlock c) m [] e cs) = inr (replace_nul (bs "<pre><code>" ++ escape_html c ++ bs "</code></pre>" ++ [10])).
+Proof. exact render_code_block. Qed.
+Theorem C11_fence_rendering : forall xhtml mk_ k c pfx m e cs,
+  render xhtml (Node (KFence [] mk_ k c pfx) m [] e cs) = inr (replace_nul (bs "<pre><code>" ++ escape_html c ++ bs "</code></pre>" ++ [10])).
+Proof. exact render_fence_plain. Qed.
+Theorem C11_code_span_rendering : forall xhtml mk_ k m e t r,
+  render xhtml (Node (KCodeInline mk_ k) m [] e [mk (KText t) r []]) = inr (replace_nul (bs "<code>" ++ escape_html t ++ bs "</code>")).
+Proof. exact render_code_inline. Qed.
+
+(* non-vacuity: a tab after two spaces of indentation inside an indented code line survives the 4-column cut *)
+Example C11_nonvacuous :
+  let l := mk_line (bs "    " ++ [32; 9; 42]) in
+  calc_right_whitespace (takeN (l_first l) (l_text l)) (l_indent l - 4) = (0, 4).
+Proof. vm_compute. reflexivity. Qed.
+
+Print Assumptions C11_cut_keeps_line_verbatim.
+Print Assumptions C11_lines_joined_verbatim.
+Print Assumptions C11_fence_content_is_the_lines.
+Print Assumptions C11_code_block_content_is_the_lines.
+Print Assumptions C11_code_span_content_is_the_slice.
+Print Assumptions C11_code_block_rendering.
+Print Assumptions C11_fence_rendering.
+Print Assumptions C11_code_span_rendering.
